@@ -7,7 +7,7 @@ sys.path.insert(0, os.path.dirname(os.path.dirname(os.path.abspath(__file__))))
 
 from harness.runner import Check  # noqa: E402
 
-KINDS = ["eager", "lazy", "reflect", "normalize", "sequential", "moment_matching", "memoize", "user_partial", "adjoint"]
+KINDS = ["eager", "lazy", "reflect", "normalize", "sequential", "moment_matching", "memoize", "user_partial", "adjoint", "user_partial2"]
 TOTAL_KINDS = 6   # the first six are total interpretations that may sit on the raw stack
 FORMS = ["with", "decorator", "memoize()"]
 
@@ -35,9 +35,16 @@ def step_fn(kind, form, max_extra, inner_depth):
     def _mark(op, lhs, rhs):
         return MARK
 
+    user_partial2 = DispatchedInterpretation("user_partial2")
+    MARK2 = Number(54321.0)
+
+    @user_partial2.register(Binary, type(ops.sub), Funsor, Funsor)
+    def _mark2(op, lhs, rhs):
+        return MARK2
+
     def make(k):
         table = {"eager": eager, "lazy": lazy, "reflect": reflect, "normalize": normalize, "sequential": sequential,
-                 "moment_matching": moment_matching, "user_partial": user_partial}
+                 "moment_matching": moment_matching, "user_partial": user_partial, "user_partial2": user_partial2}
         if k in table:
             return table[k]
         if k == "memoize":
@@ -66,7 +73,19 @@ def step_fn(kind, form, max_extra, inner_depth):
         r = choose("nraise", 2)
         before = list(IP._STACK)
         try:
-            with make(k):
+            ni = make(k)
+            with ni:
+                top = IP.get_interpretation()
+                if getattr(ni, "is_total", False):
+                    if top is not ni:
+                        raise AssertionError("nested: top %r is not the entered total interpretation %r" % (top, ni))
+                elif not (isinstance(top, PrioritizedInterpretation) and top.subinterpretations[0] is ni
+                          and tuple(top.subinterpretations[1:]) == tuple(before[-1].subinterpretations)):
+                    raise AssertionError("nested: partial interpretation %s not layered on top of the previous one: %r over %r" % (k, top, before[-1]))
+                if k in ("user_partial", "user_partial2"):
+                    got = Variable("x", Real) - Number(1.0)
+                    if got is not (MARK if k == "user_partial" else MARK2):
+                        raise AssertionError("nested: the innermost partial interpretation %s did not interpret its pattern (got %r)" % (k, got))
                 (Variable("x", Real) + 1)(x=2.0)        # substitute() pushes and pops a temporary interpretation
                 nested(depth - 1)
                 if r == 0:
@@ -139,10 +158,10 @@ def step_fn(kind, form, max_extra, inner_depth):
             # terms built inside are interpreted by the innermost context (partial ones fall through)
             if res["ok"] and "probe_add" in seen and form != "memoize()":
                 pa, ps = seen["probe_add"], seen["probe_sub"]
-                enclosing = kind if kind not in ("user_partial", "adjoint", "memoize") else (pre_kinds[-1] if pre_kinds else "eager")
+                enclosing = kind if kind not in ("user_partial", "user_partial2", "adjoint", "memoize") else (pre_kinds[-1] if pre_kinds else "eager")
                 lazy_like = enclosing in ("lazy", "reflect")
-                if kind == "user_partial":
-                    if ps is not MARK:
+                if kind in ("user_partial", "user_partial2"):
+                    if ps is not (MARK if kind == "user_partial" else MARK2):
                         res.update(ok=False, why="user partial interpretation's rule did not run for its pattern")
                 if res["ok"] and kind != "normalize" and enclosing != "normalize":
                     is_lazy = type(pa).__name__.startswith("Binary")
@@ -189,7 +208,7 @@ def main():
             if f == "memoize()" and k != "memoize":
                 continue
             if tier == "quick":
-                insts.append((k, f, 1, 1))
+                insts.append((k, f, 1, 2 if k == "user_partial" and f == "with" else 1))
             else:
                 insts.append((k, f, 2, 2))
                 insts.append((k, f, 3, 1))
